@@ -305,7 +305,7 @@ func TestC03(t *testing.T) {
 			g := &c03Gen{budget: rapid.IntRange(4, 40).Draw(rt, "budget")}
 			g.pick = func(label string, n int) int { return rapid.IntRange(0, n-1).Draw(rt, label) }
 			src := g.program(rapid.IntRange(1, 5).Draw(rt, "depth"), rapid.IntRange(2, 8).Draw(rt, "top"))
-			c.c03Program(s, "rand-programs", src)
+			c.c03Program(s, "rand-programs", place(src, drawPlacement(rt)))
 		})
 	})
 }
